@@ -752,6 +752,25 @@ class Wtp:
         assert nowiki in (True, False)
         # print("save_value", kind, args, nowiki)
         args = tuple(args)
+        if any(MAGIC_RE_PATTERN.search(a) for a in args):
+            # Text is encoded from the innermost construct outwards, so a
+            # placeholder character in the arguments stands for a construct
+            # saved earlier.  One that does not is a private-use character
+            # of the page text itself; it would be taken for the cookie of
+            # a construct saved later - possibly of this very one, whose
+            # expansion then never ends.  Such a character cannot be kept.
+            known = len(self.cookies)
+            args = tuple(
+                MAGIC_RE_PATTERN.sub(
+                    lambda m: (
+                        m.group(0)
+                        if ord(m.group(0)) - MAGIC_FIRST < known
+                        else "\ufffd"
+                    ),
+                    a,
+                )
+                for a in args
+            )
         v: CookieData = (kind, args, nowiki)
         if v in self.rev_ht:
             return self.rev_ht[v]
